@@ -277,6 +277,23 @@ theorem collapse_sound (n : Nat) (as : List (Bool × Nat × Nat)) :
       · intro a ⟨ha, hae⟩ hce
         exact g2 a ha (by simpa using hae) (by rw [hce, he])
 
+/-- dropping literal `true` conjuncts does not change the value of a conjunction -/
+theorem denB_conjuncts (env : Env) (l : List Expr) :
+    denB env .and (l.filter fun t => !(t == .boolv true)) = denB env .and l := by
+  induction l with
+  | nil => rfl
+  | cons t ts ih =>
+    simp only [List.filter_cons]
+    by_cases ht : t = .boolv true
+    · subst ht
+      have hb : (Expr.boolv true == Expr.boolv true) = true := by simp
+      simp only [hb, Bool.not_true, Bool.false_eq_true, if_false, denB, ih]
+      have : toB? (eval env (.boolv true)) = some true := by simp [eval, toB?]
+      rw [this]
+      exact (combineB_e_left .and _).symm
+    · have hb : (t == Expr.boolv true) = false := by simpa using ht
+      simp only [hb, Bool.not_false, if_true, denB, ih]
+
 /-- **collapsing an `And` of (dis)equalities of one expression preserves its truth value** -/
 theorem andEqNe_sound (target : Expr) (w : Nat) (lhs rhs : Expr) (h : andEqNe target w lhs rhs = true) (env : Env) (v : Bool)
     (hl : eval env lhs = .bool v) : eval env rhs = eval env lhs := by
@@ -286,17 +303,18 @@ theorem andEqNe_sound (target : Expr) (w : Nat) (lhs rhs : Expr) (h : andEqNe ta
   · rename_i as has
     simp only [Bool.and_eq_true, decide_eq_true_eq, List.all_eq_true, beq_iff_eq] at h
     obtain ⟨⟨hw, hws⟩, hm⟩ := h
-    have hden : denB env .and (flatB .and lhs) = some v := by
+    have hden : denB env .and (conjuncts lhs) = some v := by
       have := flatB_den env .and lhs
       simp only [BK.op] at this
-      rw [this, hl]; rfl
+      unfold conjuncts
+      rw [denB_conjuncts, this, hl]; rfl
     -- the collapse needs at least one equality, hence at least one atom: the target is a w-bit vector
     have hne : as ≠ [] := by
       intro he; subst he
       simp [collapse] at hm
     -- value of the target from the first atom
     have htarget : ∃ n, eval env target = .bv w n := by
-      cases hts : flatB .and lhs with
+      cases hts : conjuncts lhs with
       | nil => rw [hts] at has; simp [atomsAll] at has; first | exact absurd has hne | exact absurd has.symm hne
       | cons t ts =>
         rw [hts] at has hden
@@ -339,14 +357,90 @@ theorem andEqNe_sound (target : Expr) (w : Nat) (lhs rhs : Expr) (h : andEqNe ta
       rw [valEq_bv_lit w' n _ hw hnlt (Nat.mod_lt _ (Nat.two_pow_pos w')), hve]
     · simp at hm
 
+/-- every conjunct of a conjunction with a Boolean value has a Boolean value -/
+theorem denB_members (env : Env) : ∀ (l : List Expr) (v : Bool), denB env .and l = some v → ∀ t ∈ l, ∃ x, eval env t = .bool x
+  | [], _, _, t, ht => by simp at ht
+  | u :: us, v, hd, t, ht => by
+    simp only [denB] at hd
+    cases hx : toB? (eval env u) with
+    | none => simp [hx, combineB] at hd
+    | some x =>
+      cases hd' : denB env .and us with
+      | none => simp [hx, hd', combineB] at hd
+      | some v' =>
+        rcases List.mem_cons.mp ht with rfl | ht
+        · cases he : eval env t <;> simp [he, toB?] at hx
+          exact ⟨_, rfl⟩
+        · exact denB_members env us v' hd' t ht
+
+/-- if the atoms about the target are contradictory at the target's value, the conjunction is false whatever else it holds -/
+theorem denB_atoms_false (env : Env) (target : Expr) (w n : Nat) (ht : eval env target = .bv w n) :
+    ∀ (l : List Expr) (v : Bool), denB env .and l = some v → atomsHold n (atomsSome target l) = false → v = false
+  | [], v, _, h => by simp [atomsSome, atomsHold] at h
+  | t :: ts, v, hd, h => by
+    simp only [denB] at hd
+    cases hx : toB? (eval env t) with
+    | none => simp [hx, combineB] at hd
+    | some x =>
+      cases hd' : denB env .and ts with
+      | none => simp [hx, hd', combineB] at hd
+      | some v' =>
+        simp only [hx, hd', combineB, Option.some.injEq, BK.g] at hd
+        subst hd
+        have hxe : eval env t = .bool x := by
+          cases he : eval env t <;> simp [he, toB?] at hx
+          rw [hx]
+        cases ha : eqNeAtom target t with
+        | none =>
+          have : atomsSome target (t :: ts) = atomsSome target ts := by simp [atomsSome, List.filterMap_cons, ha]
+          rw [this] at h
+          rw [denB_atoms_false env target w n ht ts v' hd' h]; simp
+        | some a =>
+          obtain ⟨isEq, c, w'⟩ := a
+          have hcons : atomsSome target (t :: ts) = (isEq, c, w') :: atomsSome target ts := by
+            simp [atomsSome, List.filterMap_cons, ha]
+          rw [hcons] at h
+          simp only [atomsHold, Bool.and_eq_false_iff] at h
+          obtain ⟨n', h1, _, _, _, h5⟩ := atom_eval env target t isEq c w' ha x hxe
+          rw [ht] at h1
+          cases h1
+          rcases h with h | h
+          · rw [h5, h]; rfl
+          · rw [denB_atoms_false env target w n ht ts v' hd' h]; simp
+
+theorem andEqNeMixed_sound (target : Expr) (w : Nat) (lhs rhs : Expr) (h : andEqNeMixed target w lhs rhs = true) (env : Env) (v : Bool)
+    (hl : eval env lhs = .bool v) : eval env rhs = eval env lhs := by
+  unfold andEqNeMixed at h
+  simp only [Bool.and_eq_true, decide_eq_true_eq, List.all_eq_true, beq_iff_eq] at h
+  obtain ⟨⟨hw, hws⟩, hm⟩ := h
+  have hden : denB env .and (conjuncts lhs) = some v := by
+    have := flatB_den env .and lhs
+    simp only [BK.op] at this
+    unfold conjuncts
+    rw [denB_conjuncts, this, hl]; rfl
+  split at hm
+  · rename_i hcol
+    -- some atom exists (the collapse found an equality): it gives the target a value
+    have hne : atomsSome target (conjuncts lhs) ≠ [] := by
+      intro he; rw [he] at hcol; simp [collapse] at hcol
+    obtain ⟨a, ha⟩ := List.exists_mem_of_ne_nil _ hne
+    obtain ⟨t, htm, hta⟩ := List.mem_filterMap.mp ha
+    obtain ⟨x, hx⟩ := denB_members env _ v hden t htm
+    obtain ⟨isEq, c, w'⟩ := a
+    obtain ⟨n, hn, _⟩ := atom_eval env target t isEq c w' hta x hx
+    have hfalse := (collapse_sound n (atomsSome target (conjuncts lhs))).1 hcol
+    have := denB_atoms_false env target w' n hn _ v hden hfalse
+    rw [hl, this]; simp [eval]
+  · simp at hm
+
 theorem andEqNeAuto_sound (lhs rhs : Expr) (h : andEqNeAuto lhs rhs = true) (env : Env) (v : Bool)
     (hl : eval env lhs = .bool v) : eval env rhs = eval env lhs := by
   unfold andEqNeAuto at h
   split at h
-  · split at h
-    · rename_i target w _
-      exact andEqNe_sound target w lhs rhs h env v hl
-    · simp at h
+  · rename_i target w _
+    rcases Bool.or_eq_true_iff.mp h with h | h
+    · exact andEqNe_sound target w lhs rhs h env v hl
+    · exact andEqNeMixed_sound target w lhs rhs h env v hl
   · simp at h
 
 end Claripy.AST
